@@ -167,7 +167,26 @@ def o_rate_bound(S, qdir):
             reach.append(pc)
     q1 = OB.check(qdir, oid + ".goal", OB.script(ctx, rng + [OB.OR(disj)]), "unsat", 240, produce_model=True, get_values=["now", "last", "shift", "ppm", "t1"])
     q2 = OB.check(qdir, oid + ".reach", OB.script(ctx, rng + [OB.OR(reach)]), "sat", 240)
+    q1["replayer"] = lambda m: replay_rate(S, m)
     return [q1, q2], ctx
+
+
+def replay_rate(S, model):
+    from fractions import Fraction
+    vals = OB.model_values(model, ["now", "last", "shift", "t1"])
+    ppm = parse_real(model, "ppm")
+    if vals is None or ppm is None:
+        return None, "model not parsed"
+    out = OB.native_eval(S.native, ["ov_tfu %d %d %d %d %d" % (vals["now"], vals["last"], vals["shift"], f64_bits(ppm), vals["t1"])])[0]
+    if out == "PANIC":
+        return True, "native panic"
+    reading = int(out)
+    p = Fraction(struct.unpack("<d", struct.pack("<d", float(ppm)))[0])
+    el = vals["t1"] - vals["last"]
+    ideal = Fraction(vals["t1"] + vals["shift"]) + Fraction(el) * p / 1000000
+    err = abs(Fraction(reading) - ideal)
+    bound = 3 + Fraction(el, 8589934592000000)
+    return (err > bound), "native reading=%d ideal=%s error=%s units (bound %s), elapsed=%d ppm=%r" % (reading, float(ideal), float(err), float(bound), el, ppm)
 
 
 def o_now(S, qdir):
@@ -300,10 +319,10 @@ def build():
     O.append(mk("c18_rate_exact_at_zero_ppm", ["C18"], "quick",
                 "with ppm == 0: reading(t2) - reading(t1) == t2 - t1 exactly for last_sync <= t1 <= t2 within 10^4 s",
                 o_rate_unity, ["OverlayClock::time_from_underlying"]))
-    O.append(mk("c18_rate_within_rounding", ["C18"], "thorough",
+    O.append(mk("c18_rate_within_rounding", ["C18"], "quick",
                 "between adjustments reading(t) == t + shift + (t - last_sync) * ppm / 10^6 up to 3 units of 2^-32 ns plus the ppm conversion error (2^-33 per unit of elapsed/10^6)",
                 o_rate_bound, ["OverlayClock::time_from_underlying", "Mul<f64> for Duration", "Div<i32> for Duration"],
-                ["nonlinear (elapsed x ppm): if either solver answers unknown/timeout the obligation is reported undischarged"], role="best_effort"))
+                ["nonlinear (elapsed x ppm): if either solver answers unknown/timeout the obligation is reported undischarged"]))
     return O
 
 
@@ -359,7 +378,8 @@ def validate(S, native, qdir, log):
                 outs = run_method(S, ctx, ex, "step_clock", clk, [OB.mk_dur(lit(args[4]))])
                 terms = lambda o: [OB.bits(o.value), OB.bits(final_clock(o).fields[1]), OB.bits(final_clock(o).fields[2])]
         except Unsupported as e:
-            raise RuntimeError("overlay validation: %s: %s" % (op, e))
+            # the obligations that execute this method report the unmodelled construct themselves
+            continue
         rets = [o for o in outs if o.kind == "ret"]
         lines.append("(push)")
         lines += ctx.decls
